@@ -654,3 +654,5 @@ _dl("C05", thorough=3000); _dl("C06", thorough=3000)
 
 PLANS["C07"]["thorough"] = [hist("inv-d1-san", "san", 1, family="inv", weight=6), hist("inv-d1-prod", "prod", 1, family="inv", weight=1), hist("inv-d2r-prod", "prod", 2, reduced=1, family="inv", weight=3)]
 _dl("C07", thorough=2400)
+
+PLANS["C12"]["quick"] = PLANS["C12"]["quick"] + [lp("T-k1", "prod", "T", "k1", weight=3, opts={"fam": "T", "cfg": "k1", "tscale": 30})]
